@@ -158,6 +158,15 @@ fn run(op: &str, a: &[String]) -> String {
     }
     let field = a[0].clone();
     let width = if field == "b" { 1 } else { 3 };
+    if op == "seq" {
+        // seq <field> <op1,op2,...> <vector>: a SEQUENCE of transforms applied one after the other in this thread; the
+        // functions are pure, so the result must be the composition - hidden state carried between calls would show here
+        let mut u = parse_vec(width, &a[2..]);
+        for o in a[1].split(',') {
+            u = transform(o, &field, &u);
+        }
+        return show_values(&u, width);
+    }
     let u = parse_vec(width, &a[1..]);
     match op {
         "ntt_spot" | "intt_spot" => show_spot(&transform(op, &field, &u), width),
